@@ -605,8 +605,19 @@ fn gen_selset(c: &mut Ctx, p: &Project, ty: &str, depth: usize, dc: &mut DeclCtx
     }
     let n = c.t.range(1, 4);
     let mut out: Vec<Sel> = vec![];
+    let mut last_server: Option<FieldDef> = None;
     for _ in 0..n {
-        let cand = cands[c.t.choose(cands.len())].clone();
+        let mut cand = cands[c.t.choose(cands.len())].clone();
+        // bias towards the same server field selected twice in one selection set (it gets an alias
+        // below): equal and near-equal (field, arguments) pairs are what merging has to get right
+        if let Some(prev) = &last_server {
+            if c.t.chance(1, 5) {
+                cand = Cand::Server(prev.clone());
+            }
+        }
+        if let Cand::Server(f) = &cand {
+            last_server = Some(f.clone());
+        }
         let mut sel = match cand {
             Cand::Server(f) => {
                 let args = gen_field_args(c, schema, &f.args, dc, false);
